@@ -99,6 +99,18 @@ theorem generated_constants :
   ⟨gen_K, gen_H0, gen_sigma.1, gen_sigma.2.1, gen_sigma.2.2.1, gen_sigma.2.2.2, rfl, rfl, rfl, rfl, rfl, rfl, rfl, rfl,
     rfl, rfl, rfl, rfl⟩
 
+/-- (T) the comparison loop of `HmacSha256::verify`, as regenerated from the source, starts from 0,
+    OR-accumulates XOR differences and tests the result against 0.  The model interprets these five
+    items (`Model/Hmac.lean`: `binOp`, `finalTest`), and `verify` above is proved through them:
+    an accumulator that adds, xors, ands or overwrites breaks this theorem and `verify`. -/
+theorem generated_verify_loop :
+    Gen.C08.verifyAccInit = 0 ∧ Gen.C08.verifyAccOp = "|" ∧ Gen.C08.verifyDiffOp = "^" ∧
+    Gen.C08.verifyFinalCmp = "==" ∧ Gen.C08.verifyFinalConst = 0 :=
+  ⟨gen_verifyAccInit, gen_verifyAccOp, gen_verifyDiffOp, gen_verifyFinalCmp, gen_verifyFinalConst⟩
+
+/-- why the operator matters: with a wrapping sum two differences of 0x80 cancel -/
+example : Hmac.binOp "+" (Hmac.binOp "+" 0 (Hmac.binOp "^" 0x12 0x92)) (Hmac.binOp "^" 0x34 0xb4) = 0 := by decide
+
 /-- `primes64` is the list of the first sixty-four primes -/
 theorem first_64_primes : primes64 = primesBelow 312 ∧ primes64.length = 64 := primes64_are_the_first_64_primes
 
